@@ -12,7 +12,7 @@ import (
 func init() { register("C02", propC02) }
 
 func propC02(c *Ctx) {
-	c.Explanation = "Liveness under loss is a property of timed executions and is not decided. Decided (path shapes, for all inputs and schedules): (W1) produce => notify: a segment enqueued by HandlePacket asserts newSegmentWaker; data queued by Write is processed under TryLock or asserts sndWaker; the FIN queued by Shutdown asserts sndCloseWaker; a zero->non-zero receive-window transition in readLocked/SetSockOpt notifies the protocol goroutine, whose handler sends the window-reopening ACK exactly when the window last announced (after scaling) was zero; (W2) every waker field of endpoint/sender/keepalive is registered with a handler in protocolMainLoop and every notify flag is tested in the notification handler or the listen loop; the handshake registers resend, notification and new-segment wakers; (W3) the retransmission timer is (re)armed with the current RTO whenever sndUna != sndNxt (data or FIN outstanding), the SYN resend timer exists before the first SYN and is reset on each resend; (W4) FIN last, nothing after it: Write queues data only while sndClosed is false, in the sndBufMu critical section; Shutdown sets sndClosed in the critical section that pushes the zero-length segment at the BACK of the send queue; sendData turns only the last, zero-length segment into FIN|ACK; the receive side closes only on a consumed in-order FIN (one sequence number, ACKed at once, readers told) and ignores everything afterwards; (W5) the main loop runs until rcv.closed && snd.closed && sndUna == sndNxtList. (W7) logicalLen = payload + SYN + FIN (shared); a zero-length segment is consumed only exactly at rcvNxt (W4). (W8) the lazy retransmission timer's typestate (shared with C05/L6): an expiry ends disabled, so the next enable re-arms. (W9) teardown happens exactly once: the worker if one runs (Close sets workerCleanup and wakes it; completeWorkerLocked cleans up when asked), else Close; workerRunning is set before the goroutine starts; protocol goroutines are started only by connect, Listen and startAcceptedLoop. NOT decided: that retransmission eventually succeeds, timing, window probing by the peer."
+	c.Explanation = "Liveness under loss is a property of timed executions and is not decided. Decided (path shapes, for all inputs and schedules): (W1) produce => notify: a segment enqueued by HandlePacket asserts newSegmentWaker; data queued by Write is processed under TryLock or asserts sndWaker; the FIN queued by Shutdown asserts sndCloseWaker; a zero->non-zero receive-window transition in readLocked/SetSockOpt notifies the protocol goroutine, whose handler sends the window-reopening ACK exactly when the window last announced (after scaling) was zero; (W2) every waker field of endpoint/sender/keepalive is registered with a handler in protocolMainLoop and every notify flag is tested in the notification handler or the listen loop; the handshake registers resend, notification and new-segment wakers; (W3) the retransmission timer is (re)armed with the current RTO whenever sndUna != sndNxt (data or FIN outstanding), the SYN resend timer exists before the first SYN and is reset on each resend; (W4) FIN last, nothing after it: Write queues data only while sndClosed is false, in the sndBufMu critical section; Shutdown sets sndClosed in the critical section that pushes the zero-length segment at the BACK of the send queue; sendData turns only the last, zero-length segment into FIN|ACK; the receive side closes only on a consumed in-order FIN (one sequence number, ACKed at once, readers told) and ignores everything afterwards; (W5) the main loop runs until rcv.closed && snd.closed && sndUna == sndNxtList. (W7) logicalLen = payload + SYN + FIN (shared); a zero-length segment is consumed only exactly at rcvNxt (W4). (W8) the lazy retransmission timer's typestate (shared with C05/L6): an expiry ends disabled, so the next enable re-arms. (W9) teardown happens exactly once: the worker if one runs (Close sets workerCleanup and wakes it; completeWorkerLocked cleans up when asked), else Close; workerRunning is set before the goroutine starts; protocol goroutines are started only by connect, Listen and startAcceptedLoop. W4 also holds the drain-loop rows: parked segments are offered with their payload length. NOT decided: that retransmission eventually succeeds, timing, window probing by the peer."
 	ep := "(*tcp.endpoint)."
 	w1 := c.Rule("W1", "K1/K2/K5 site tables", "produce => notify", 12)
 	if fn := c.Fn(w1, ep+"HandlePacket"); fn != nil {
@@ -224,6 +224,13 @@ func propC02(c *Ctx) {
 	w4 := c.Rule("W4", "K1 site tables", "FIN last, nothing after it", 6)
 	if fn := c.Fn(w4, "(*tcp.receiver).consumeSegment"); fn != nil {
 		c.CheckSitesPresent(w4, fn, pick(consumeSegmentTable(), "C02"))
+	}
+	if fn := c.Fn(w4, "(*tcp.receiver).handleRcvdSegment"); fn != nil {
+		// every segment - arriving or parked - is offered to consumeSegment with its
+		// PAYLOAD length: the FIN's sequence number is added by consumeSegment itself,
+		// once (a parked FIN offered with its logical length would be acknowledged as
+		// FIN+2 and the peer's close never completes)
+		c.CheckSitesPresent(w4, fn, pick(rcvHandleSegmentTable(), "C02"))
 	}
 	c.OnlyIn(w4, "store receiver.closed", c.FieldStores("tcp.receiver", "closed"), "(*tcp.receiver).consumeSegment")
 	if fn := c.Fn(w4, "(*tcp.receiver).handleRcvdSegment"); fn != nil {
